@@ -24,6 +24,7 @@ Record ops (F : Type) := mkOps {
   fleb : F -> F -> bool;     (* x <= y *)
   fltb : F -> F -> bool;     (* x <  y *)
   feqb : F -> F -> bool;     (* x == y *)
+  fapprox : F -> F -> bool;  (* float_cmp approx_eq!(f64, x, y, ulps = 2) *)
   fofN : N -> F;             (* usize as f64 *)
   fround : F -> Z;           (* f64::round() as isize (ties away from zero) *)
   ffinite : F -> bool;       (* f64::is_finite *)
@@ -32,7 +33,7 @@ Arguments f0 {F}. Arguments f1 {F}. Arguments f2 {F}. Arguments fhalf {F}.
 Arguments fisq2 {F}. Arguments fpi {F}.
 Arguments fadd {F}. Arguments fsub {F}. Arguments fmul {F}. Arguments fdiv {F}.
 Arguments fneg {F}. Arguments fsqrt {F}. Arguments fcos {F}. Arguments fsin {F}.
-Arguments fleb {F}. Arguments fltb {F}. Arguments feqb {F}. Arguments fofN {F}.
+Arguments fleb {F}. Arguments fltb {F}. Arguments feqb {F}. Arguments fapprox {F}. Arguments fofN {F}.
 Arguments fround {F}. Arguments ffinite {F}.
 
 Section Complex.
